@@ -42,7 +42,11 @@ def install(it):
         fmt, st = a[0], a[1]
         from .core import term
 
-        return SV("str", f_strftime(term(fmt), z3.BoolVal(st.zone == "utc"), as_real(st.secs)))
+        r = f_strftime(term(fmt), z3.BoolVal(st.zone == "utc"), as_real(st.secs))
+        if isinstance(fmt, str) and fmt == "%Y%m%d%H%M%S":
+            # T-time: an all-numeric format yields digits only
+            i.ctx.assume(z3.InRe(r, z3.Plus(z3.Range("0", "9"))))
+        return SV("str", r)
 
     mm["time"] = ModuleVal(
         "time",
